@@ -104,7 +104,9 @@ async function run_cli(c, repo) {
         const inp = path.join(d, 'in.csv'), outp = path.join(d, 'out.csv');
         write_lines(inp, c.in_lines);
         if (c.join_lines) write_lines(path.join(d, 'jt.csv'), c.join_lines);
-        const args = [path.join(repo, 'rbql-js', 'cli_rbql.js'), '--query', c.qjs || c.q, '--input', inp, '--delim', c.delim, '--policy', c.policy];
+        const args = [path.join(repo, 'rbql-js', 'cli_rbql.js'), '--query', c.qjs || c.q, '--input', inp];
+        if (!c.omit_delim) args.push('--delim', c.delim);
+        if (!c.omit_policy) args.push('--policy', c.policy);
         if (c.with_output !== false) args.push('--output', outp);
         if (c.with_headers) args.push('--with-headers');
         const p = child_process.spawnSync(process.execPath, args, {cwd: d, timeout: 120000});
